@@ -5,7 +5,8 @@
      Write g stamps     a writer's lifetime on channel group g (index channel 10g+1 and
                         data channel 10g+2): open at the first stamp, write, commit, close
      Delete g a b idx   DeleteTimeRange [a,b) on the data channel (and the index channel)
-     Create k / PWrite k stamps / DelChan k   a private index channel
+     Create k / PWrite k stamps / PDelete k a b / DelChan k   a private index channel (also
+                        used for a bare domain database driven below the cesium layer)
      Noop               reads, iterators, streamers, garbage collection: no effect on content
    No proofs here. *)
 From stdpp Require Import gmap.
@@ -26,6 +27,7 @@ Inductive action :=
 | Create (k : Z)
 | PWrite (k : Z) (stamps : list Z)
 | DelChan (k : Z)
+| PDelete (k a b : Z)
 | Noop.
 
 Definition add_samples (c : content) (l : list (Z * Z)) : content :=
@@ -51,6 +53,7 @@ Definition step (st : store) (a : action) : store :=
   | Create k => match st !! k with Some _ => st | None => <[k := ∅]> st end
   | PWrite k stamps => upd st k (fun c => add_samples c (map (fun t => (t, t)) stamps))
   | DelChan k => delete k st
+  | PDelete k a b => upd st k (del_range a b)
   | Noop => st
   end.
 
@@ -64,7 +67,7 @@ Definition chans (a : action) : list Z :=
   match a with
   | Write g _ => [idx_key g; data_key g]
   | Delete g _ _ _ => [idx_key g; data_key g]
-  | Create k | PWrite k _ | DelChan k => [k]
+  | Create k | PWrite k _ | DelChan k | PDelete k _ _ => [k]
   | Noop => []
   end.
 
@@ -81,6 +84,10 @@ Definition independent (x y : action) : bool :=
   | Write g s, Delete g' a b _ => (g =? g') && outside a b s
   | Delete g' a b _, Write g s => (g =? g') && outside a b s
   | Delete g _ _ _, Delete g' _ _ _ => (g =? g')
+  | PWrite k s, PWrite k' s' => (k =? k') && disjointb s s'
+  | PWrite k s, PDelete k' a b => (k =? k') && outside a b s
+  | PDelete k' a b, PWrite k s => (k =? k') && outside a b s
+  | PDelete k _ _, PDelete k' _ _ => (k =? k')
   | Noop, _ | _, Noop => true
   | _, _ => false
   end.
